@@ -215,3 +215,20 @@ Proof.
     + assert (Hs : skipn i t = []). { apply skipn_all2. apply nth_error_None. exact Hc. }
       rewrite Hs. split; [discriminate | intros (c' & A & _); discriminate].
 Qed.
+
+(** the case variants of a trigram (product of orbits) are exactly the triples accepted by the prefilter predicates *)
+Lemma orbit_full_in c x : In x (orbit_full c) <-> orbit_eq c x = true.
+Proof.
+  unfold orbit_full, orbit_eq, fold_eq. simpl. rewrite orb_true_iff, N.eqb_eq, existsb_exists. split.
+  - intros [H|H]; [left; exact H | right; exists x; split; [exact H | apply N.eqb_refl]].
+  - intros [H|(y & Hy & E)]; [left; exact H | right]. apply N.eqb_eq in E. subst; exact Hy.
+Qed.
+Theorem variants3_spec : forall a b c x y z,
+  In (x, y, z) (variants3 a b c) <-> orbit_eq a x = true /\ orbit_eq b y = true /\ orbit_eq c z = true.
+Proof.
+  intros a b c x y z. unfold variants3. rewrite in_flat_map. split.
+  - intros (x' & Hx & H). apply in_flat_map in H. destruct H as (y' & Hy & H). apply in_map_iff in H.
+    destruct H as (z' & E & Hz). injection E as -> -> ->. rewrite <- !orbit_full_in. auto.
+  - intros (Hx & Hy & Hz). exists x. split; [apply orbit_full_in; exact Hx|]. apply in_flat_map.
+    exists y. split; [apply orbit_full_in; exact Hy|]. apply in_map_iff. exists z. split; [reflexivity | apply orbit_full_in; exact Hz].
+Qed.
